@@ -20,6 +20,8 @@ from rules import nul
 
 
 def run(ctx, prog):
+    from rules import rawio
+    rawio.run(ctx, prog, readers=False)
     # ---------------------------------------------------------------- R-BUFGUARD
     rule = "R-BUFGUARD"
     n = 0
